@@ -244,6 +244,7 @@ C06_Failover(Spre, Vpre, Spost, Vpost, a) ==
         (IF ProxyCluster(Spost, a) = cname
             /\ \E n \in DOMAIN Vpost.nodes : Vpost.nodes[n].proxy = a /\ Vpost.nodes[n].role = "master"
          THEN {"C06.failed_still_master"} ELSE {}) \cup
+        (IF CV_Twins(Vpost) THEN {} ELSE {"C06.migration_addresses"}) \cup
         (IF \A t \in Touching(Vpre, a) :
                \A u \in MigEpochs(Vpost) : (u[1] = t[1] /\ u[2] = t[2]) => u[3] > t[3]
          THEN {} ELSE {"C06.migration_not_reissued"})
